@@ -213,8 +213,8 @@ def r3(ctx):
     tests = [n for n in g.nodes.values() if n.kind == "test" and ("satisfies" in n.text(300) or "_get_running_jobs" in n.text(300))]
     ctx.require(len(tests) == 2, f"C10.R3: expected 2 capacity tests in _is_valid, found {len(tests)}")
     for t in tests:
-        tsucc = [b for b, k in g.succ[t.id] if k == "t"]
-        ok = all(g.nodes[b] in false_rets for b in tsucc)
+        tsucc = g.real_succ(t.id, "t")
+        ok = bool(tsucc) and all(g.nodes[b] in false_rets for b in tsucc)
         ctx.ob("R3", f"failing capacity test `{t.text(50)}` returns False at once", ok, func=f, node=t.ast,
                instance=f"_is_valid:fail-fast:{'hw' if 'satisfies' in t.text(300) else 'slots'}")
 
@@ -245,8 +245,9 @@ def r4(ctx):
     cmps = [n for n in f.body_nodes() if isinstance(n, ast.Compare) and "_get_running_jobs" in unparse(n)]
     ctx.require(len(cmps) == 1, "C10.R4: slot comparison not found")
     cmp_ = cmps[0]
+    SLOTS = unparse(cmp_.comparators[0]) if isinstance(cmp_.comparators[0], ast.Name) else "slots"
     ok = (len(cmp_.ops) == 1 and isinstance(cmp_.ops[0], ast.Lt) and isinstance(cmp_.left, ast.Call) and unparse(cmp_.left.func) == "len"
-          and unparse(cmp_.comparators[0]) == "slots")
+          and isinstance(cmp_.comparators[0], ast.Name))
     par = getattr(cmp_, "_parent", None)
     neg = isinstance(par, ast.UnaryOp) and isinstance(par.op, ast.Not)
     alt = (len(cmp_.ops) == 1 and isinstance(cmp_.ops[0], ast.GtE) and not neg)
@@ -254,7 +255,7 @@ def r4(ctx):
            message=f"slot capacity test has the wrong shape: {unparse(par if neg else cmp_)}")
     from ..dataflow import defs_of
 
-    ds = [d for d in defs_of(f, "slots") if d.kind == "assign"]
+    ds = [d for d in defs_of(f, SLOTS) if d.kind == "assign"]
     ok = len(ds) == 1 and isinstance(ds[0].value, ast.IfExp) and unparse(ds[0].value.orelse) == "1" and unparse(ds[0].value.body).endswith(".slots")
     ctx.ob("R4", "slots defaults to 1", ok, func=f, node=ds[0].stmt if ds else f.node, instance="slots-default")
     # running predicate (P10)
@@ -312,9 +313,15 @@ def r5(ctx):
     # hardware reservation: += requirement or first normalised copy, under `if key in hardware ... hardware[key]`
     aug = [n for n in f.body_nodes() if isinstance(n, ast.AugAssign) and root_attr(n.target) == "hardware_locations"]
     first = [n for n in f.body_nodes() if isinstance(n, ast.Assign) and root_attr(n.targets[0]) == "hardware_locations"]
-    ok = (len(aug) == 1 and isinstance(aug[0].op, ast.Add) and unparse(aug[0].value) == "hardware[key]"
-          and len(first) == 1 and unparse(first[0].value) == "hardware[key].normalized()"
+    ok = (len(aug) == 1 and isinstance(aug[0].op, ast.Add) and isinstance(aug[0].value, ast.Subscript) and unparse(aug[0].value.value) == "hardware"
+          and len(first) == 1 and unparse(first[0].value) == unparse(aug[0].value) + ".normalized()"
           and unparse(aug[0].target) == unparse(first[0].targets[0]))
+    if ok:
+        # the key is built from the connector of the *current* level and the location name
+        from ..dataflow import origins as _or
+
+        ks = [unparse(o) for o in _or(f, aug[0].value.slice)]
+        ok = bool(ks) and all("deployment_name" in k and ".name" in k and not k.startswith("posixpath.join(connector.") for k in ks)
     ctx.ob("R5", "reservation adds the level's requirement to hardware_locations[loc.name]", ok, func=f,
            node=aug[0] if aug else f.node, instance="reserve-add",
            message="the reservation does not add the per-level requirement to the location's reserved hardware")
